@@ -34,11 +34,11 @@ PROPS['C20'] = dict(
             'xor_old': dict(pkg='./cmd/xorchk', overlay='xorold'),
             'xor_old_race': dict(pkg='./cmd/xorchk', overlay='xorold', race=True),
             'xor_old_asan': dict(pkg='./cmd/xorchk', overlay='xorold', asan=True)},
-    stages=[dict(name='subtle', bin='xor_default', args=['-impl', 'subtle'], shards=shards(2, 8), par=16, crash_is_violation=True, crash_key='subtle:crash'),
-            dict(name='subtle-asan', bin='xor_default_asan', args=['-impl', 'subtle-asan'], shards=shards(2, 8), par=16, crash_is_violation=True, crash_key='subtle:crash'),
-            dict(name='wordwise', bin='xor_old', args=['-impl', 'wordwise'], shards=shards(2, 8), par=16, crash_is_violation=True, crash_key='wordwise:crash'),
-            dict(name='wordwise-checkptr', bin='xor_old_race', args=['-impl', 'wordwise-checkptr'], shards=shards(4, 16), par=16, crash_is_violation=True, crash_key='wordwise:crash'),
-            dict(name='wordwise-asan', bin='xor_old_asan', args=['-impl', 'wordwise-asan'], shards=shards(4, 16), par=16, crash_is_violation=True, crash_key='wordwise:crash')],
+    stages=[dict(name='subtle', bin='xor_default', args=['-impl', 'subtle'], shards=shards(6, 12), par=16, crash_is_violation=True, crash_key='subtle:crash'),
+            dict(name='subtle-asan', bin='xor_default_asan', args=['-impl', 'subtle-asan', '-nq', '48', '-nt', '130'], shards=shards(2, 8), par=16, crash_is_violation=True, crash_key='subtle:crash'),
+            dict(name='wordwise', bin='xor_old', args=['-impl', 'wordwise'], shards=shards(6, 12), par=16, crash_is_violation=True, crash_key='wordwise:crash'),
+            dict(name='wordwise-checkptr', bin='xor_old_race', args=['-impl', 'wordwise-checkptr', '-nq', '48', '-nt', '130'], shards=shards(4, 16), par=16, crash_is_violation=True, crash_key='wordwise:crash'),
+            dict(name='wordwise-asan', bin='xor_old_asan', args=['-impl', 'wordwise-asan', '-nq', '48', '-nt', '130'], shards=shards(4, 16), par=16, crash_is_violation=True, crash_key='wordwise:crash')],
     replay_stage='wordwise',
     need_counters=['calls_subtle', 'calls_wordwise', 'calls_wordwise-asan', 'calls_wordwise-checkptr'],
 )
@@ -163,3 +163,9 @@ PROPS['C19'] = dict(
     ],
     need_counters=['workloads_run'] + ['operations_' + w for w in ('build', 'socket', 'bind', 'tbf', 'filters', 'buffer', 'deadline', 'dpipe', 'listener', 'netctx', 'bridge')],
 )
+
+# safety net: a child that dies with a panic / fatal error and a pion/transport frame in the trace is a violation for every stage
+for _p, _cfg in PROPS.items():
+    for _st in _cfg['stages']:
+        _st.setdefault('crash_is_violation', True)
+        _st.setdefault('crash_key', 'crash')
